@@ -168,8 +168,17 @@ impl ServerContext {
         let sender = self.conn.sender.clone();
         let cancellations = self.cancellations.clone();
 
+        // The handler runs in its own task so that a panic inside it surfaces here as a failed
+        // join (answered below with an internal error) instead of leaving the request unanswered.
+        let handler = tokio::spawn(exec(cancel_token.clone()));
         tokio::spawn(async move {
-            let res = exec(cancel_token.clone()).await;
+            let res = match handler.await {
+                Ok(res) => res,
+                Err(err) => {
+                    log::error!("request {} handler failed: {}", req_id, err);
+                    None
+                }
+            };
             if cancel_token.is_cancelled() {
                 let response = Response::new_err(
                     req_id.clone(),
